@@ -17,7 +17,7 @@ def matmul(*operands):
     if any(isinstance(o[0, 0], CObs) for o in operands):
         extended_operands = []
         for op in operands:
-            tmp = np.vectorize(lambda x: (np.real(x), np.imag(x)))(op)
+            tmp = np.vectorize(lambda x: (np.real(x), np.imag(x)), otypes=[object, object])(op)
             extended_operands.append(tmp[0])
             extended_operands.append(tmp[1])
 
